@@ -137,3 +137,31 @@ Theorem C05_one_seat_majority_wins_cfer_for_every_accepted_file : forall A S (ZL
   forall c, In c (State.cands s) -> cid c = m -> cst c = Elected.
 Proof. exact accepted_majority_cfer. Qed.
 Print Assumptions C05_one_seat_majority_wins_cfer_for_every_accepted_file.
+
+(* the hypotheses of the cfer / cfer-batch / wigm-prf-batch / mpls theorems are satisfiable: a well-formed three-candidate profile
+   with a first-preference majority, counted by the model under Fixed(4) with each of the four rules, ends normally with the
+   majority candidate elected *)
+From Coq Require Import Lia.
+From Droop Require Import Proofs.Gregory Proofs.Conserve.
+Open Scope string_scope.
+Definition c05_profile : Election.profile :=
+  mkProfile 1 7 [mkPcand 1 1 1 "A" "1" false false; mkPcand 2 2 2 "B" "2" false false; mkPcand 3 3 3 "C" "3" false false]
+            [(4, [1; 2]); (2, [2; 3]); (1, [3; 2])] [].
+Example C05_new_rules_nonvacuous :
+  wf_profile c05_profile /\ NoDup (map pc_cid (pr_cands c05_profile)) /\ ballot_total c05_profile = 7 /\ first_prefs c05_profile 1 = 4 /\
+  Forall (fun rc => match exec (@crashed _) (2 ^ 10)%positive (count_cmd (Fixed 4 4) (snd rc) (fst rc)) (init_state (Fixed 4 4) (snd rc) c05_profile) with
+                    | Some (s, Next) => map (fun c => (cid c, cst c)) (cands s) = [(1, Elected); (2, Defeated); (3, Defeated)] | _ => False end)
+         [(RCfer, mkConfig "cfer" MWigm 1 7 false false false false 0); (RCfer, mkConfig "cfer-batch" MWigm 1 7 false false true false 0);
+          (RWigmPrf, mkConfig "wigm-prf-batch" MWigm 1 7 false false true false 0); (RMpls, mkConfig "mpls" MWigm 1 7 false false false false 0)].
+Proof.
+  split; [|split; [repeat constructor; cbn; intuition (try discriminate; try lia)|split; [reflexivity|split; [reflexivity|]]]].
+  - split; [repeat constructor; cbn; intuition (try discriminate; try lia)|].
+    intros m r H. cbn in H. destruct H as [H|[H|[H|[]]]]; inversion H; subst; (split; [lia|]);
+    intros c Hc; cbn in Hc;
+    repeat (destruct Hc as [<-|Hc];
+            [first [exists (mkPcand 1 1 1 "A" "1" false false); split; [cbn; tauto|split; reflexivity]
+                   |exists (mkPcand 2 2 2 "B" "2" false false); split; [cbn; tauto|split; reflexivity]
+                   |exists (mkPcand 3 3 3 "C" "3" false false); split; [cbn; tauto|split; reflexivity]]|]); contradiction.
+  - apply Forall_cons; [vm_compute; reflexivity|]. apply Forall_cons; [vm_compute; reflexivity|].
+    apply Forall_cons; [vm_compute; reflexivity|]. apply Forall_cons; [vm_compute; reflexivity|]. apply Forall_nil.
+Qed.
